@@ -15,10 +15,12 @@ name_of() { basename "$1"; }; short_of() { basename "$1" | tr 'A-Z-' 'a-z_'; }
 if [ "$MODE" = build ]; then
   export CARGO_TARGET_DIR="$1"; BINS="$2"; shift 2
   mkdir -p "$BINS"; cd "$WT" || exit 2
-  put_demos() { for D in "$@"; do S=$(short_of "$D"); cp "$D/demo.rs" radix-engine-tests/tests/system/seeded_demo_$S.rs; echo "mod seeded_demo_$S;" >> radix-engine-tests/tests/system/mod.rs; done; }
-  git checkout -q -- . ; git clean -fdq; put_demos "$@"; touch radix-engine/src/lib.rs
-  cargo test -p radix-engine-tests --test system_folder --offline -- seeded_demo > "$BINS/clean.log" 2>&1
-  echo "clean tree, all demos: exit=$? $(grep -E '^test result' "$BINS/clean.log" | tail -1)"
+  put_demos() { local D S; for D in "$@"; do S=$(short_of "$D"); cp "$D/demo.rs" radix-engine-tests/tests/system/seeded_demo_$S.rs; echo "mod seeded_demo_$S;" >> radix-engine-tests/tests/system/mod.rs; done; }
+  if ! grep -q "^test result: ok" "$BINS/clean.log" 2>/dev/null; then
+    git checkout -q -- . ; git clean -fdq; put_demos "$@"; touch radix-engine/src/lib.rs
+    cargo test -p radix-engine-tests --test system_folder --offline -- seeded_demo > "$BINS/clean.log" 2>&1
+    echo "clean tree, all demos: exit=$? $(grep -E '^test result' "$BINS/clean.log" | tail -1)"
+  fi
   for D in "$@"; do
     N=$(name_of "$D"); S=$(short_of "$D"); OUT="$D/confirmed.txt"; : > "$OUT"; echo "== $N"
     echo "demo_without_change (clean-tree build holding all demo modules): $(grep -E "seeded_demo_$S::.* \.\.\. " "$BINS/clean.log" | tr '\n' ';' | cut -c1-500)" >> "$OUT"
